@@ -14,6 +14,10 @@ Families (each enumerated completely, no sampling)
   kwonly keyword-only parameters after *args (defaulted before required and the other way round) x every positional
         prefix x every subset of the keywords, wherever a signature is written: <%def name>, <%call/%ns:def args>
         (caller.body(**args)), <%page args> (Template.render(*a, **kw)), <%block name args> (in place and self.blk(..))
+  extra three products: buffered=/cached= spelled with true and false literals on top-level, nested and in-call defs
+        x call sites where returning and writing differ (concatenation, capture, statement call); <%ns:def a="...">
+        values of <= 3 pieces from {${v}, ${w}, x, LF, CRLF, blank-with-LF, blank}; calls with a def whose body holds
+        (directly, under % for, in a block, in a further call) another call with a def of the same name
   tree  every program tree of weight <= W over the full alphabet, and of weight W+1 over a smaller alphabet
         (calls with content nested in callee bodies, call bodies, nested defs, defs inside calls, loops,
          anonymous filtered blocks; caller.body() 0..n times, capture(caller.body), caller.named();
@@ -56,7 +60,9 @@ RULE = (
     "the def-inside-a-call invoked with content; kwonly: every (signature with keyword-only parameters after *args, positional "
     "prefix, subset of the keywords given) tuple in a <%def> (9 call forms x placement x flag), in the args= of a call with "
     "content (callee runs caller.body(ARGS)), in <%page args> (render(ARGS)) and in <%block name args> (rendered in place "
-    "with the page's values and called as self.blk(ARGS)); tree: every statement sequence (<= 3 statements per block) of weight <= W "
+    "with the page's values and called as self.blk(ARGS)); extra: every (place, buffered=/cached= literal, filter, call form incl. <% f() %>, "
+    "configuration) tuple, every attribute value of <= n pieces over 7 tokens x tag form x call site, every inner-defs shape; "
+    "tree: every statement sequence (<= 3 statements per block) of weight <= W "
     "over the full alphabet and of weight W+1 over a smaller alphabet, where a call weighs 1 + 1 per flag + 1 for a form "
     "other than ${f()} / <%call expr> + 1 for body args + 1 for nested placement + 1 for a def inside the call, and "
     "caller.body() / capture(caller.body) / caller.named() / % for / <%block filter> weigh 1 each; call nesting <= depth; "
@@ -71,7 +77,8 @@ ASSUMPTIONS = [
     "does not fix `caller`, so no caller use or probe is generated there (DONT_CARE)",
     "a def invoked while the argument expressions of a call with content are evaluated (f(g0()), a=\"${g0()}\") never looks "
     "at `caller` (what it would see is not fixed by the statement)",
-    "mixtures in tag attributes contain only string-valued expressions; body arguments are passed by keyword",
+    "mixtures in tag attributes contain only string-valued expressions; body arguments are passed by keyword; a CRLF inside "
+    "the literal text of an attribute value is read as LF (the lexer normalises line ends of attribute values)",
     "filters, buffer filters, default filters and the decorator are tagging functions of mc/c05_env.py supplied through "
     "Template(imports=...)",
     "exceptions: only the class of arity errors (TypeError) is compared; buffer/caller stack balance is checked after "
@@ -100,9 +107,9 @@ def alphabets():
         "core": ir.Alphabet("core", forms=("bare", "tcall", "tself"), flags=(N_, B_, F_), bodyargs=(0, 1), cb_modes=("plain",),
                             nested=False, blocks=False, form_cost={"tself": 1}, **cost),
         # one weight deeper, quick tier: ${f()} and <%call>; {none, buffered}; def inside the call; caller.body(),
-        # caller.named() (no loops: the quick tier has to fit 60 s on a heavily shared machine)
+        # caller.named() (no loops, <= 2 statements per block: the quick tier has to fit 60 s on a heavily shared machine)
         "mini": ir.Alphabet("mini", forms=("bare", "tcall"), flags=(N_, B_), bodyargs=(0,), cb_modes=("plain",),
-                            nested=False, blocks=False, loops=False, **cost),
+                            nested=False, blocks=False, loops=False, maxlen=2, **cost),
     }
 
 
@@ -112,6 +119,7 @@ BOUNDS = {
         "bind": {"sigs": 8, "flags": [list(N_), list(D_), [True, 1, False]]},
         "flags": {"cfgs": [0, 3]},
         "kwonly": {"sigs": 3, "flags": [list(N_), list(D_)]},
+        "extra": {"spell_cfgs": [0, 1], "attr_len": 3},
         "block_len": 3,
     },
     "thorough": {
@@ -119,6 +127,7 @@ BOUNDS = {
         "bind": {"sigs": 10, "flags": [list(N_), list(B_), list(F_), list(D_), [True, 2, True]]},
         "flags": {"cfgs": [0, 1, 2, 3]},
         "kwonly": {"sigs": 5, "flags": [list(N_), list(B_), list(F_), list(D_)]},
+        "extra": {"spell_cfgs": [0, 1, 2, 3], "attr_len": 4},
         "block_len": 3,
     },
 }
@@ -378,6 +387,127 @@ def iter_kwonly(tier, seed):
 
 
 # ---------------------------------------------------------------------------
+# family "extra": three small products
+#   spelling     buffered= / cached= written out with true and false literals on top-level, nested and in-call defs,
+#                called where "returns its content" and "writes it" differ (concatenation, capture, statement call)
+#   attr-values  <%self:f a="..."> values made of <=3 pieces from {${v}, ${w}, x, LF, CRLF, blank-with-LF, blank}
+#   inner-defs   a call with content and a def inside it whose body holds (directly, under % for, in a block, inside
+#                a further call) another call with a def of the same name
+
+SPELLINGS = [(None, None), ("True", None), ("False", None), ("0", None), ("1", None), (None, "False"), ("False", "False"), ("True", "False")]
+
+
+def _mkdef(name, sig, body, buffered=False, filters=(), deco=False, defs=(), bspell=None, cspell=None):
+    d = {"name": name, "sig": sig, "buffered": bool(buffered), "filters": list(filters), "deco": bool(deco), "defs": list(defs), "body": body}
+    if bspell is not None:
+        d["bspell"] = bspell
+    if cspell is not None:
+        d["cspell"] = cspell
+    return d
+
+
+def _ctx(seed):
+    return {"v": c05_env.V_POOL[seed % len(c05_env.V_POOL)], "w": c05_env.V_POOL[(seed + 1) % len(c05_env.V_POOL)]}
+
+
+def spelling_program(place, bspell, cspell, nfilt, form, cfg, seed):
+    pre = ir.NAME_POOL[seed % len(ir.NAME_POOL)]
+    txt = ir.TEXT_POOL[seed % len(ir.TEXT_POOL)]
+    buffered = bool(eval(bspell)) if bspell is not None else False  # Python decides what the literal means
+    incall = place.startswith("calldef")
+    tname = "named" if incall else pre + "1"
+    t = _mkdef(tname, "", [["text", tname + "(IN)"]], buffered=buffered, filters=ir.filters_of(nfilt), bspell=bspell, cspell=cspell)
+    if not incall:
+        call = ["call", form, tname, "", None]
+        if place == "top":
+            defs, body = [t], [["text", "["], call, ["text", "]"]]
+        else:
+            w = _mkdef("w0", "", [["text", "w0("], call, ["text", ")"]], defs=[t])
+            defs, body = [w], [["text", "["], ["call", "bare", "w0", "", None], ["text", "]"]]
+    else:
+        d2 = _mkdef(pre + "2", "", [["text", pre + "2("], ["call", form, "caller.named", "", None], ["text", ")"]])
+        site = ["call", "tcall", pre + "2", "", {"args": "", "named": [t], "body": [["text", txt]]}]
+        if place == "calldef":
+            defs, body = [d2], [["text", "["], site, ["text", "]"]]
+        else:
+            w = _mkdef("w0", "", [["text", "w0("], site, ["text", ")"]])
+            defs, body = [d2, w], [["text", "["], ["call", "bare", "w0", "", None], ["text", "]"]]
+    return {"defs": defs, "body": body, "cfg": cfg, "ctx": _ctx(seed)}
+
+
+ATTR_TOKENS = [["expr", "v"], ["expr", "w"], ["lit", "x"], ["lit", "\n"], ["lit", "\r\n"], ["lit", " \n\t"], ["lit", " "]]
+
+
+def attr_values(maxlen):
+    """all sequences of <= maxlen tokens, adjacent literals merged, distinct as written text"""
+    seen = set()
+    out = []
+    for n in range(0, maxlen + 1):
+        for seq in itertools.product(ATTR_TOKENS, repeat=n):
+            parts = []
+            for p in seq:
+                if p[0] == "lit" and parts and parts[-1][0] == "lit":
+                    parts[-1] = ["lit", parts[-1][1] + p[1]]
+                else:
+                    parts.append(list(p))
+            key = ir.p_args_attrs([["a", parts]])
+            if key not in seen:
+                seen.add(key)
+                out.append(parts)
+    return out
+
+
+def attr_program(parts, sig, params, form, place, seed):
+    pre = ir.NAME_POOL[seed % len(ir.NAME_POOL)]
+    txt = ir.TEXT_POOL[seed % len(ir.TEXT_POOL)]
+    t = _mkdef(pre + "1", sig, _params_text(pre + "1", params) + [["text", ")"]])
+    call = ["call", form, pre + "1", [["a", parts]], {"args": "", "named": [], "body": [["text", txt]]}]
+    if place == "top":
+        defs, body = [t], [["text", "["], call, ["text", "]"]]
+    elif place == "def":
+        w = _mkdef("w0", "", [["text", "w0("], call, ["text", ")"]])
+        defs, body = [t, w], [["text", "["], ["call", "bare", "w0", "", None], ["text", "]"]]
+    else:  # inside the body of another call
+        d2 = _mkdef(pre + "2", "", [["text", pre + "2("], ["expr", "caller.body()"], ["text", ")"]])
+        outer = ["call", "tcall", pre + "2", "", {"args": "", "named": [], "body": [["text", "<"], call, ["text", ">"]]}]
+        defs, body = [t, d2], [["text", "["], outer, ["text", "]"]]
+    return {"defs": defs, "body": body, "cfg": 0, "ctx": _ctx(seed)}
+
+
+def inner_defs_skeletons():
+    for oform in ("tcall", "tself"):
+        for iform in ("tcall", "tself"):
+            for nfl in (N_, B_):
+                for callee in ((("cn",), ("cb", "plain")), (("cb", "plain"), ("cn",))):
+                    inner = ("call", iform, N_, "top", (0, (), ()), (("cn",), ("cb", "plain")))
+                    mid = ("call", "tcall", N_, "top", (0, None, (inner,)), (("cb", "plain"),))
+                    for wrap in ((inner,), (("for", (inner,)),), (("block", 1, (inner,)),), (("for", (("block", 1, (inner,)),)),), (mid,),
+                                 (("for", (mid,)),)):
+                        yield (("call", oform, N_, "top", (0, (), wrap, nfl), callee),)
+
+
+def iter_extra(tier, seed):
+    b = BOUNDS[tier]["extra"]
+    for cfg in b["spell_cfgs"]:
+        for place in ("top", "nested", "calldef", "calldef-in-def"):
+            for bspell, cspell in SPELLINGS:
+                for nfilt in (0, 1):
+                    for form in ("bare", "cat", "cap", "stmt"):
+                        yield {"family": "extra", "where": "spelling", "nontrivial": bspell is not None or cspell is not None,
+                               "prog": spelling_program(place, bspell, cspell, nfilt, form, cfg, seed)}
+    for parts in attr_values(b["attr_len"]):
+        nt = any(p[0] == "lit" and p[1].isspace() for p in parts)
+        for form, place in (("tself", "top"), ("tself", "def"), ("tself", "callbody"), ("tlocal", "top")) + (
+                (("tlocal", "def"), ("tlocal", "callbody")) if b["attr_len"] > 3 else ()):
+            yield {"family": "extra", "where": "attr-values", "nontrivial": nt,
+                   "prog": attr_program(parts, "a, b='-'", ["a", "b"], form, place, seed)}
+        yield {"family": "extra", "where": "attr-values", "nontrivial": nt,
+               "prog": attr_program(parts, "**kw", ["kw"], "tself", "top", seed)}
+    for skel in inner_defs_skeletons():
+        yield {"family": "extra", "where": "inner-defs", "skel": skel, "cfg": 0}
+
+
+# ---------------------------------------------------------------------------
 # family "tree"
 
 
@@ -389,7 +519,7 @@ def iter_tree(tier, seed):
                 yield {"family": "tree", "skel": skel, "cfg": 0, "w": w}
 
 
-FAMILIES = {"bind": iter_bind, "flags": iter_flags, "tree": iter_tree, "kwonly": iter_kwonly}
+FAMILIES = {"bind": iter_bind, "flags": iter_flags, "tree": iter_tree, "kwonly": iter_kwonly, "extra": iter_extra}
 
 
 def materialise(item, seed):
@@ -600,7 +730,7 @@ def check_program(st, family, prog, nontrivial, extra=None):
 def plan(tier, seed):
     n = core.NPROC
     jobs = []
-    for fam in ("tree", "bind", "flags", "kwonly"):
+    for fam in ("tree", "bind", "flags", "kwonly", "extra"):
         ns = n * 2 if fam == "tree" else n
         for i in range(ns):
             jobs.append({"family": fam, "tier": tier, "seed": seed, "shard": i, "nshards": ns})
@@ -632,7 +762,7 @@ def run_job(job):
 def post(tier, seed, st):
     """smallest witness of each signature first (workers finish in any order)"""
     st.violations.sort(key=lambda v: (v["sig"], len(v["case"].get("src", "")), v["case"].get("src", "")))
-    for k in ("cpu_s", "cpu_s_tree", "cpu_s_bind", "cpu_s_flags", "cpu_s_kwonly"):
+    for k in ("cpu_s", "cpu_s_tree", "cpu_s_bind", "cpu_s_flags", "cpu_s_kwonly", "cpu_s_extra"):
         if k in st.extra:
             st.extra[k] = round(st.extra[k], 1)
 
